@@ -503,8 +503,13 @@ func (c *Ctx) eexecOperator() {
 		}
 		c.check(okCmp, "EEXEC-OP", fname, "only io.EOF is treated as the end of the section", e.Pos(), "compared with nil and io.EOF only", "eexec treats an error other than io.EOF as normal completion")
 	}
-	// scanner on top of the scanner stack is used by eexec and readstring
-	for _, op := range []string{"eexec", "readstring"} {
+	c.scannerOperators(ia, reg, "EEXEC-OP", "eexec", "readstring")
+}
+
+// scannerOperators: eexec and readstring work on the scanner on top of the scanner stack;
+// readstring skips exactly one byte (the blank after RD / -|) before the binary data.
+func (c *Ctx) scannerOperators(ia *interpAnchors, reg *registry, rule string, ops ...string) {
+	for _, op := range ops {
 		g := reg.op("systemdict", op)
 		okTop := false
 		var scannerVal ssa.Value
@@ -520,7 +525,7 @@ func (c *Ctx) eexecOperator() {
 				}
 			}
 		})
-		c.check(okTop, "EEXEC-OP", c.fname(g), op+" works on the scanner on top of the scanner stack", g.Pos(), "scanners[len-1]", op+" does not take its bytes from the current (decrypting) scanner")
+		c.check(okTop, rule, c.fname(g), op+" works on the scanner on top of the scanner stack", g.Pos(), "scanners[len-1]", op+" does not take its bytes from the current (decrypting) scanner")
 		if op == "readstring" && scannerVal != nil {
 			// calls on the scanner, in order
 			var seq []string
@@ -531,7 +536,7 @@ func (c *Ctx) eexecOperator() {
 					}
 				}
 			})
-			c.check(strings.Join(seq, ",") == "Next,Read", "EEXEC-OP", c.fname(g), "readstring skips exactly one delimiter byte, then reads raw bytes", g.Pos(), "Next, Read", "readstring calls "+strings.Join(seq, ",")+" on the scanner; binary data starting with white space or `%` would be misread unless exactly one byte is skipped")
+			c.check(strings.Join(seq, ",") == "Next,Read", rule, c.fname(g), "readstring skips exactly one delimiter byte, then reads raw bytes", g.Pos(), "Next, Read", "readstring calls "+strings.Join(seq, ",")+" on the scanner; binary data starting with white space or `%` would be misread unless exactly one byte is skipped")
 		}
 	}
 }
